@@ -16,6 +16,7 @@ EXPLANATION = (
     "R4.5 typed access: every unwrap_downcast_{ref,into}/downcast_ref().expect in arg_matches.rs is dominated by "
     "try_get_arg_t/try_remove_arg_t in the same function; in try_remove_arg_t every path from remove_entry to an Err return "
     "re-inserts the entry. R4.5b MatchedArg::infer_type_id answers with the declared type id first (values only as a fallback). NOT decided: the accepted language of str::parse::<i64> (std), exhaustive boundary behaviour."
+    ' R4.5c: infer_type_id scans the stored values when no type is recorded (group entries).'
 )
 TRUSTED = ["rustc MIR + HIR", "clapfacts", "std str::parse / TryFrom for integers"]
 ASSUMPTIONS = ["user-defined TypedValueParser impls are outside this property"]
